@@ -138,10 +138,61 @@ def p_deepcopy(sh, tag):
 
 
 def p_dump_json(sh, tag):
-  cfg = fdl.Config(N.node, x=fdl.Partial(N.Mid, x=tag), y=[N.Color.RED])
+  cfg = fdl.Config(N.node, x=fdl.Partial(N.Mid, x=tag),
+                   y=[N.Color.RED, N.node_b, N.Base])
   text = serialization.dump_json(cfg)
   back = serialization.load_json(text)
   return dict(text=text, back=repr(canon.canon_cfg(back)), ids=seq_ids(cfg))
+
+
+def p_dump_json_fn(sh, tag):
+  """A function and a class as argument *values* (pyrefs that carry paths),
+  at other paths than in p_dump_json."""
+  cfg = fdl.Config(N.node_b, x=N.node_b, y={'k': [N.Base, tag]})
+  text = serialization.dump_json(cfg)
+  called = serialization.dump_json(fdl.Config(N.node_b, x=tag))
+  return dict(text=text, called=called, ids=seq_ids(cfg))
+
+
+@__import__('dataclasses').dataclass(eq=True)
+class UnhashableA:
+  tag: str = 'a'
+
+  def __call__(self, x='xa', depth=7):
+    return ('A', x, depth)
+
+
+@__import__('dataclasses').dataclass(eq=True)
+class UnhashableB:
+  tag: str = 'b'
+
+  def __call__(self, y='yb', depth=2, extra=None):
+    return ('B', y, depth)
+
+
+def p_unhashable_a(sh, tag):
+  """Configures unhashable callable objects and lets them die."""
+  seen = set()
+  for i in range(60):
+    cfg = fdl.Config(UnhashableA(str(i)))
+    seen.add(cfg.depth)
+    del cfg
+  return dict(depths=sorted(seen), ids=[])
+
+
+def p_unhashable_b(sh, tag):
+  """Its own unhashable callable objects of another class (some of them at
+  addresses that earlier objects occupied)."""
+  seen = set()
+  keep = []
+  for i in range(600):
+    try:
+      cfg = fdl.Config(UnhashableB(str(i)), y=i)
+      seen.add((cfg.depth, cfg.extra))
+    except Exception as e:  # pylint: disable=broad-except
+      seen.add(type(e).__name__)
+    keep.append(cfg)
+  return dict(depths=sorted(map(repr, seen)), ids=[])
 
 
 def p_fresh_callable(sh, tag):
@@ -238,11 +289,14 @@ PROGRAMS = {
     'suspend_single': p_suspend_single, 'suspend_nested': p_suspend_nested,
     'build_slow': p_build_slow, 'edits': p_edits,
     'nested_suspend': p_nested_suspend, 'deepcopy': p_deepcopy,
-    'dump_json': p_dump_json, 'fresh_callable': p_fresh_callable,
+    'dump_json': p_dump_json, 'dump_json_fn': p_dump_json_fn,
+    'unhashable_a': p_unhashable_a, 'unhashable_b': p_unhashable_b,
+    'fresh_callable': p_fresh_callable,
     'failing_build': p_failing_build, 'eq': p_eq,
     'nested_build': p_nested_build,
 }
 SMALL = ['suspend_single', 'suspend_nested', 'quiet']
+SEQUENTIAL_ONLY = ['unhashable_a', 'unhashable_b']
 SHORT = ['build_slow', 'edits', 'nested_suspend', 'fresh_callable',
          'failing_build', 'nested_build']
 
@@ -263,7 +317,7 @@ def units(tier, seed):
   b = bounds(tier)
   names = list(PROGRAMS)
   cap = b['occurrence_cap']
-  names = [n for n in names if n not in SMALL]
+  names = [n for n in names if n not in SMALL and n not in SEQUENTIAL_ONLY]
   out = [('combo', list(c), b['pair_bound'], cap)
          for c in itertools.combinations_with_replacement(names, 2)]
   # small programs: two preemptions, every dynamic occurrence, also in quick
@@ -280,8 +334,29 @@ def units(tier, seed):
   return out
 
 
+_FRESH = {}
+
+
 def solo(name):
   """The observation of a program running alone from a fresh state."""
+  if name in ('dump_json', 'dump_json_fn', 'unhashable_b'):
+    # process-wide caches could already hold another run's data: these
+    # references come from a fresh interpreter
+    if name not in _FRESH:
+      import json  # pylint: disable=g-import-not-at-top
+      import os  # pylint: disable=g-import-not-at-top
+      import subprocess  # pylint: disable=g-import-not-at-top
+      import sys  # pylint: disable=g-import-not-at-top
+      code = ('import json, sys; from mc import c19; '
+              f'print("@@" + json.dumps(c19._solo_here({name!r})))')
+      out = subprocess.run([sys.executable, '-c', code], capture_output=True,
+                           text=True, env=dict(os.environ), check=True).stdout
+      _FRESH[name] = json.loads(out.split('@@')[-1])
+    return dict(_FRESH[name])
+  return _solo_here(name)
+
+
+def _solo_here(name):
   import threading  # pylint: disable=g-import-not-at-top
   sh = Shared()
   vfx.reset()
@@ -386,7 +461,8 @@ def run_combo(names, bound, res, only_schedule=None, occurrence_cap=None):
 
 
 LIFE = ['quiet', 'edits', 'suspend_nested', 'nested_suspend', 'failing_build',
-        'fresh_callable', 'build_slow']
+        'fresh_callable', 'build_slow', 'dump_json', 'dump_json_fn',
+        'unhashable_a', 'unhashable_b']
 
 
 def run_lifetimes(k, res, only=None):
@@ -396,7 +472,8 @@ def run_lifetimes(k, res, only=None):
   thread observes what it observes alone."""
   import threading  # pylint: disable=g-import-not-at-top
   expected = {n: solo(n) for n in LIFE}
-  seqs = [s for ln in (2, 3) for s in itertools.product(LIFE, repeat=ln)]
+  seqs = list(itertools.product(LIFE, repeat=2)) + list(
+      itertools.product(LIFE[:7], repeat=3))
   for idx, seq in enumerate(seqs):
     if only is not None:
       if list(seq) != only:
